@@ -889,6 +889,11 @@ impl<'a> Interp<'a> {
         }
     }
 
+    /// does the sequence element have value ops besides its insert op (it was overwritten by put / put_object)?
+    pub fn elem_overwritten(&self, obj: &ObjRef, elem: &Oid) -> bool {
+        self.ctx.updates.get(obj).and_then(|m| m.get(elem)).map_or(false, |u| u.iter().any(|i| self.is_value_op(*i)))
+    }
+
     /// short description of what kind of op an id names
     pub fn op_kind(&self, o: &Oid) -> &'static str {
         match self.ctx.index.get(o).map(|i| &self.ctx.ops[*i].act) {
